@@ -60,6 +60,7 @@ type VerifPacketConn struct {
 	out     []VerifFrame
 	closed  bool
 	onWrite func()
+	readErr error // returned once by the next ReadFrom (a transient socket error)
 }
 
 var _ net.PacketConn = (*VerifPacketConn)(nil)
@@ -69,6 +70,11 @@ func (p *VerifPacketConn) ReadFrom(b []byte) (int, net.Addr, error) {
 	defer p.mu.Unlock()
 	if p.closed {
 		return 0, nil, io.EOF
+	}
+	if p.readErr != nil {
+		err := p.readErr
+		p.readErr = nil
+		return 0, nil, err
 	}
 	if len(p.in) == 0 {
 		return 0, nil, ErrVerifNoFrame
@@ -279,6 +285,30 @@ func (v *VerifL2) ProcessARP(ifname string, frame []byte, before, after func()) 
 	}
 	x.conn.DropPending()
 	return int(reason), x.conn.Frames(n0)
+}
+
+// ProcessARPReadError lets the responder of ifname run one read that fails with err although the socket stays open
+// (what a packet socket reports once while its interface is administratively down).
+func (v *VerifL2) ProcessARPReadError(ifname string, err error, before, after func()) int {
+	x := v.find(ifname)
+	if x == nil {
+		return VerifDropError
+	}
+	x.mu.Lock()
+	defer x.mu.Unlock()
+	x.conn.DropPending()
+	if before != nil {
+		before()
+	}
+	x.conn.mu.Lock()
+	x.conn.readErr = err
+	x.conn.mu.Unlock()
+	reason := x.resp.processRequest()
+	if after != nil {
+		after()
+	}
+	x.conn.DropPending()
+	return int(reason)
 }
 
 // ShouldAnnounce is the decision the NDP responder asks for a solicited target on ifname.
